@@ -304,3 +304,45 @@ def every_statistics_part_reaches_the_reassembly_even_if_the_raw_event_is_halted
     "the_raw_event_goes_to_the_nexus_then_unless_halted_to_the_connection":
       lambda res: delivered(b, con, nexus, halted, of_01.RawStatsReply, lambda a: a[0] is con and a[1] is msg),
   })
+
+
+# ---------------------------------------------------------------- a reply's event carries ITS entries only - also the second time
+# (added 2026-09-25, sixth round: a seeded change turned a handler's local accumulator into a mutable default argument, so every
+# later table-stats event also carried the entries of all earlier ones - the first call is fine)
+
+def _mk_handler_twice(name, event_cls):
+  def u(b):
+    con, nexus, cs, halted = event_targets(b)
+    if b.mode == "sym":
+      # both events of both calls are delivered the same way: a listener never halts here
+      b.assume(b.Not(halted))
+      cs = dict(cs)
+      cs["pox.lib.revent.revent:EventMixin.raiseEventNoErrors"] = Raise([None, None, None, None])
+    else:
+      nexus.outcome = None
+    first = [b.raw_new(of.ofp_flow_stats) for _ in range(2)]
+    second = [b.raw_new(of.ofp_flow_stats) for _ in range(1)]
+    p1, p2 = b.new(of.ofp_stats_reply), b.new(of.ofp_stats_reply)
+    b.set(p1, "body", b.list(first))
+    b.set(p2, "body", b.list(second))
+    l1, l2 = b.list([p1]), b.list([p2])
+    h = getattr(of_01, name)
+    def run(con):
+      h(con, l1)
+      h(con, l2)
+      return None
+    def same(lst, expect):
+      return len(lst) == len(expect) and all([x is y for x, y in zip(lst, expect)])
+    return Case(run, [con], calls=cs, raises={}, ensures={
+      "the_second_reply_s_events_carry_the_second_reply_s_entries_only":
+        lambda res: len(raised(b)) == 4 and all([same(raised(b)[i][2][2], first) for i in (0, 1)])
+        and all([same(raised(b)[i][2][2], second) for i in (2, 3)]),
+    })
+  u.__name__ = name + "_twice_in_a_row"
+  u.bound = "two replies of one part each"
+  unit(P, target=CN + name)(u)
+
+
+for _name, _cls in (("handle_OFPST_FLOW", of_01.FlowStatsReceived), ("handle_OFPST_TABLE", of_01.TableStatsReceived),
+                    ("handle_OFPST_PORT", of_01.PortStatsReceived), ("handle_OFPST_QUEUE", of_01.QueueStatsReceived)):
+  _mk_handler_twice(_name, _cls)
